@@ -247,7 +247,30 @@ def replay_merge(cfg, inputs):
         key = "SD_PreGER:pov-not-forwarded" if np.allclose(Sy, S2, rtol=1e-6, atol=1e-9 * np.abs(S2).max()) else "SD_PreGER:merge"
         return True, (f"simultaneous recording, {method}, nxseg={nxseg}, pov={pov}: merged matrix differs from the single-setup "
                       f"cross-spectral matrix (max rel. dev. {np.abs(Sy - S1).max() / np.abs(S1).max():.3g})"), key
-    return False, "merged == single-setup estimate", None
+    # general clause: independent recordings per setup with different gains, against the definition built from the
+    # real per-setup estimates (reference block = mean; roving block = G_mov,ref inv(G_ref,ref) mean)
+    gains = [3.0, 1.0, 0.5, 2.0][:S]
+    Yg = [{"ref": g * (rng.randn(nref, N) + 0.2 * k), "mov": g * rng.randn(n, N)} for k, (g, n) in enumerate(zip(gains, nmov))]
+    Yin = [{"ref": d["ref"].copy(), "mov": d["mov"].copy()} for d in Yg]
+    try:
+        freq, Sy = fdd.SD_PreGER(Yin, fs, nxseg=nxseg, pov=pov, method=method)
+    except Exception as e:  # noqa: BLE001
+        return True, f"SD_PreGER raised {type(e).__name__}: {e}", "SD_PreGER:raises"
+    per = [fdd.SD_est(np.vstack([d["ref"], d["mov"]]), d["ref"], 1 / fs, nxseg, method=method, pov=pov)[1] for d in Yg]
+    mean = sum(G[:nref] for G in per) / S
+    want = [mean]
+    for G in per:
+        blk = np.empty_like(G[nref:])
+        for f in range(G.shape[2]):
+            blk[:, :, f] = G[nref:, :, f] @ np.linalg.inv(G[:nref, :, f]) @ mean[:, :, f]
+        want.append(blk)
+    want = np.vstack(want)
+    if Sy.shape != want.shape or not np.allclose(Sy, want, rtol=1e-6, atol=1e-9 * np.abs(want).max()):
+        dev = np.abs(Sy - want).max(axis=(1, 2)) / np.abs(want).max() if Sy.shape == want.shape else None
+        rows = [int(i) for i in np.nonzero(dev > 1e-6)[0]] if dev is not None else "shape"
+        return True, (f"independent setups with gains {gains}, {method}: merged matrix differs from mean reference block / "
+                      f"transmissibility x mean in rows {rows}"), "SD_PreGER:merge-general"
+    return False, "merged == single-setup estimate; general clause == definition", None
 
 
 class _O:
